@@ -561,3 +561,30 @@ func c18Configs(tier string) []C18Cfg {
 }
 
 func checkC18() int { return checkSimple("C18", "C18atom", "C18-atomicity.part") }
+
+// c13Configs: the snapshot-centred configurations of the controller-atomicity harness (part C13conc of C13): a volume
+// snapshot runs concurrently with replica-set changes and writes.  A snapshot that is taken on fewer than RF replicas,
+// or at different points of the write sequence on different replicas, ends in node chains / data that no sequential
+// order of the same calls produces.
+func c13Configs(tier string) []C18Cfg {
+	var out []C18Cfg
+	add := func(init string, ops ...string) { out = append(out, C18Cfg{Name: "snap", Init: init, Ops: ops}) }
+	for _, p := range [][]string{{"Snap", "Mon1"}, {"Snap", "Mon0"}, {"Snap", "Rm1"}, {"Snap", "Rm0"}, {"Snap", "W0"}, {"Snap", "Snap"}, {"Snap", "Mon1", "W0"}} {
+		add("rw3", p...)
+	}
+	for _, p := range [][]string{{"Snap", "Mon1"}, {"Snap", "Rm0"}, {"Snap", "W0"}} {
+		add("rf2", p...)
+	}
+	for _, p := range [][]string{{"Snap", "Ver2"}, {"Snap", "Mon2"}, {"Snap", "Mon0"}} {
+		add("rw2wo", p...)
+	}
+	add("rw2", "Snap", "Add2")
+	if tier == "thorough" {
+		add("rw3", "Snap", "Rm1", "W0")
+		add("rw3", "Snap", "Mon1", "Mon2")
+		add("rw2wo", "Snap", "Ver2", "W0")
+	}
+	return out
+}
+
+func checkC13() int { return checkSimple("C13", "C13conc", "C13-conc.part") }
